@@ -283,6 +283,19 @@ def run(ctx):
     t_phase = time.time()
     # ---- 3. schedules the synchronous script cannot pause inside (thorough) -----------
     conc = []
+    # gated schedule (both tiers): a replicated write to an existing row lands between
+    # OpenTable's observer subscription and the start of its bulk load
+    gout = ctx.path("gated.ndjson")
+    rc, text, wall = ctx.go_test(MODULE, PKG, HARNESS, "^TestVerifGorpGated$", env={"VERIF_OUT": gout}, tag="gated", timeout=600)
+    gated = ctx.read_ndjson(gout)
+    if rc != 0 or not gated:
+        raise vlib.Inconclusive("gated populate driver failed rc=%s:\n%s" % (rc, text[-2000:]))
+    for o in gated:
+        if o.get("stale"):
+            ctx.report("C17 populate-race stale index",
+                       "%s: index differs from the table after quiescence in %d of %d trials, e.g. %s" % (
+                           o["kind"], o["stale"], o["trials"], o.get("sample")),
+                       {"concurrent": o, "cmd": "go test -tags verif -run TestVerifGorpGated (see tools/props/c17.py)"})
     if thorough:
         out = ctx.path("conc.ndjson")
         rc, text, wall = ctx.go_test(MODULE, PKG, HARNESS, "^TestVerifGorpConcurrent$",
@@ -310,7 +323,7 @@ def run(ctx):
         "design_runs": design,
         "replays": replays,
         "mechanisms": mech,
-        "concurrent": conc,
+        "concurrent": conc + gated,
         "rule": "design: every state of GorpIndex.tla (masked) for the listed sizes, 18 filter trees x every view; "
                 "conformance: TLC-simulated behaviours (seeded) replayed step by step into gorp.Table on memkv in two "
                 "observer wirings, comparing rows, LookupIndex/SortedIndex.Get per value, 18 filter trees x "
